@@ -97,6 +97,16 @@ theorem or_eq_add_of_lt {x y t : Nat} (hx : x < 2 ^ t) (hy : 2 ^ t ∣ y) : x ||
   rw [Nat.or_comm, Nat.add_comm, Nat.two_pow_add_eq_or_of_lt hx]
 
 
+theorem and_eq_zero_of_lt {x y t : Nat} (hx : x < 2 ^ t) (hy : 2 ^ t ∣ y) : x &&& y = 0 := by
+  obtain ⟨m, rfl⟩ := hy
+  apply Nat.eq_of_testBit_eq
+  intro i
+  rw [Nat.testBit_and, Nat.zero_testBit, Nat.testBit_two_pow_mul]
+  by_cases hi : t ≤ i
+  · have : x < 2 ^ i := Nat.lt_of_lt_of_le hx (Nat.pow_le_pow_right (by omega) hi)
+    rw [Nat.testBit_lt_two_pow this]; rfl
+  · simp [hi]
+
 /-! ### environments -/
 
 theorem EnvIn_length : ∀ {env : List Nat} {ienv : List Itv}, EnvIn env ienv → env.length = ienv.length
@@ -377,6 +387,17 @@ theorem E.norm_sound {ienv : List Itv} {env : List Nat} (h : EnvIn env ienv) :
     obtain ⟨x, hxc, ⟨hxl, hxh, hxd⟩, hxw, hxz⟩ := iha _ _ ha
     obtain ⟨y, hyc, ⟨hyl, hyh, hyd⟩, hyw, hyz⟩ := ihb _ _ hb
     simp only at hn
+    split at hn
+    · rename_i hc
+      simp only [Option.some.injEq, Prod.mk.injEq] at hn
+      obtain ⟨rfl, rfl⟩ := hn
+      have hand : x &&& y = 0 := by
+        rcases hc with hc | hc
+        · exact and_eq_zero_of_lt (by omega) hyd
+        · rw [Nat.and_comm]; exact and_eq_zero_of_lt (by omega) hxd
+      refine ⟨0, ?_, ⟨Nat.le_refl _, Nat.le_refl _, Nat.dvd_zero _⟩, ?_, rfl⟩
+      · simp [E.evalC, hxc, hyc, hand]
+      · simp [E.evalW, hxw, hyw, hand]
     split at hn
     · rename_i k hk
       split at hk
